@@ -203,6 +203,7 @@ def is_concrete(v) -> bool:
 
 class Interp:
     max_depth = 8
+    _defaults_pending = False
     max_steps = 20000
 
     def __init__(self, prog: Program, func: Func, args: dict, self_obj: Any = None, prefix: Optional[list[bool]] = None, depth: int = 0, root: Optional["Interp"] = None):
@@ -220,13 +221,22 @@ class Interp:
             self.env[func.self_name] = self_obj
         if root is None:
             # parameters not supplied by the rule take their declared default
-            for p in func.params:
-                if p.name not in self.env and p.default is not None and p.kind in ("pos", "kwonly"):
-                    self.env[p.name] = self.default_value(func, p)
-                elif p.name not in self.env and p.kind == "vararg":
-                    self.env[p.name] = ()
-                elif p.name not in self.env and p.kind == "kwarg":
-                    self.env[p.name] = {}
+            try:
+                self._bind_defaults()
+            except AttributeError:
+                # a default expression needs state a subclass sets up after this constructor: bind at the first step
+                self._defaults_pending = True
+
+    def _bind_defaults(self):
+        self._defaults_pending = False
+        func = self.func
+        for p in func.params:
+            if p.name not in self.env and p.default is not None and p.kind in ("pos", "kwonly"):
+                self.env[p.name] = self.default_value(func, p)
+            elif p.name not in self.env and p.kind == "vararg":
+                self.env[p.name] = ()
+            elif p.name not in self.env and p.kind == "kwarg":
+                self.env[p.name] = {}
 
     # ------------------------------------------------------------------ decisions
     def decide(self, node: ast.AST, value) -> bool:
@@ -504,7 +514,45 @@ class Interp:
         pass
 
     # ------------------------------------------------------------------ running
+    def _catches(self, htype, exc_name: str) -> bool:
+        """`except <htype>` against an exception class name: names that are not exception classes themselves
+        (a module-level tuple of classes) are evaluated; package classes follow their base classes."""
+        if htype is None:
+            return True
+        elts = list(htype.elts) if isinstance(htype, ast.Tuple) else [htype]
+        names = []
+        for x in elts:
+            d = (dotted(x) or "").split(".")[-1]
+            if d in _EXC_PARENTS or d in _BUILTIN_EXC or d == "BaseException":
+                names.append(d)
+                continue
+            try:
+                v = self.eval(x)
+            except (Undecided, RaiseSignal, KeyError):
+                v = None
+            for y in v if isinstance(v, (tuple, list)) else [v]:
+                if isinstance(y, Sym):
+                    names.append(y.name.split(":")[-1].split(".")[-1])
+                elif isinstance(y, Class):
+                    names.append(y.name)
+                elif d:
+                    names.append(d)
+        chain, cur = [], exc_name.split(".")[-1]
+        for _ in range(10):
+            chain.append(cur)
+            if cur == "BaseException":
+                break
+            nxt = _EXC_PARENTS.get(cur)
+            if nxt is None:
+                c = next((c for c in self.prog.classes.values() if c.name == cur), None) if hasattr(self.prog, "classes") else None
+                b = [(dotted(b_) or "").split(".")[-1] for b_ in c.node.bases] if c is not None else []
+                nxt = b[0] if b else "Exception"
+            cur = nxt
+        return any(n in chain for n in names)
+
     def run(self) -> Outcome:
+        if self._defaults_pending:
+            self._bind_defaults()
         try:
             self.exec_block(self.func.node.body)
         except _Return as r:
@@ -598,7 +646,7 @@ class Interp:
                 except RaiseSignal as r:
                     handled = False
                     for h in st.handlers:
-                        if _handler_catches(h.type, r.exc_name):
+                        if self._catches(h.type, r.exc_name):
                             if h.name:
                                 self.env[h.name] = Sym("exc:" + r.exc_name)
                             if not hasattr(self, "_handling"):
@@ -818,6 +866,8 @@ class Interp:
         return self.eval(s)
 
     def eval(self, e: ast.expr):
+        if self._defaults_pending:
+            self._bind_defaults()
         self._tick()
         m = getattr(self, "ev_" + type(e).__name__, None)
         if m is None:
@@ -1215,8 +1265,12 @@ class Interp:
             if fv.name.startswith("builtin:"):
                 return self.call_builtin(fv.name[8:], args, kwargs, node)
             nm = fv.name[4:] if fv.name.startswith("ext:") else fv.name
+            if nm.endswith(".isEnabledFor"):
+                return True  # diagnostics are analysed switched on: whatever the guarded block does is seen
             return self.external_call(nm, args, kwargs, node)
         if isinstance(fv, Unknown):
+            if str(fv.tag).endswith(".isEnabledFor") or str(fv.tag).endswith(".isEnabledFor)"):
+                return True
             return self.external_call(fv.tag, args, kwargs, node)
         raise Undecided(f"call of {fv!r}")
 
@@ -1610,7 +1664,16 @@ _ABSTRACT_TYPES = {
 }
 
 
-_BUILTIN_SYMS = {
+import builtins as _bi
+
+_BUILTIN_EXC = {n for n in dir(_bi) if isinstance(getattr(_bi, n), type) and issubclass(getattr(_bi, n), BaseException)}
+for _n in _BUILTIN_EXC:
+    _b = getattr(_bi, _n).__mro__[1].__name__
+    if _n not in _EXC_PARENTS and _b != "object":
+        _EXC_PARENTS[_n] = _b
+_EXC_PARENTS["IOError"] = "Exception" if "IOError" not in _EXC_PARENTS else _EXC_PARENTS["IOError"]
+
+_BUILTIN_SYMS = _BUILTIN_EXC | {
     "len", "int", "float", "bool", "str", "list", "tuple", "set", "dict", "max", "min", "abs", "sorted", "reversed",
     "range", "enumerate", "zip", "any", "all", "sum", "print", "hash", "round", "type", "hasattr", "getattr",
     "setattr", "isinstance", "issubclass", "open", "super", "object", "Exception", "NotImplementedError", "ValueError",
